@@ -153,6 +153,9 @@ func smallRuns(a *acc, sp *seqSpace, idx int, cfg smallCfg) {
 	for _, cl := range classes {
 		same := cl.same
 		runRuns(a, t, same, "same = "+cl.name, func(s []int) [][]int { return xslices.Runs(s, same) })
+		for _, pol := range takePolicies {
+			runRunsPartial(a, t, same, "same = "+cl.name, pol)
+		}
 	}
 }
 
@@ -182,10 +185,15 @@ func smallConvert(a *acc, sp *seqSpace, idx int, cfg smallCfg) {
 	n := len(d)
 	zero := make([]int, n+2)
 	noPulls := func() int { return 0 }
+	gd, chkD, _ := guardInts(d) // the slice handed to Slice is a sub-slice with spare capacity
 	runFlavours(a, &single[int]{op: "Slice", param: "-", src: d, ref: res[int]{out: d, need: zero}, same: eqInt},
 		[]flavourMk[int]{{"iterator", func() handle[int] {
-			return handle[int]{next: iterator.Slice(d).Next, pulls: noPulls, close: func() {}}
+			return handle[int]{next: iterator.Slice(gd).Next, pulls: noPulls, close: func() {}}
 		}}})
+	a.integ++
+	if msg := chkD(); msg != "" {
+		a.fail("argument-modified", "iterator", "Slice", fmt.Sprintf("iterator.Slice over %v (a sub-slice with spare capacity), fully consumed: %s", brief(d), msg), map[string]any{"source": d})
+	}
 	// Chan: "pulls" = values received from the channel so far.
 	mkChan := func() (chan int, func() int) {
 		c := make(chan int, n+1)
@@ -273,6 +281,11 @@ func (a *acc) reduce(flavour, op, param string, src any, nontrivial bool, want a
 			map[string]any{"source": src, "param": param})
 		return
 	}
+	if m, ok := got.(argModified); ok {
+		a.fail("argument-modified", flavour, op, fmt.Sprintf("%s.%s(%s) over %v (arguments are sub-slices with spare capacity): %s", flavour, op, param, src, string(m)),
+			map[string]any{"source": src, "param": param})
+		return
+	}
 	if fmt.Sprint(got) != fmt.Sprint(want) {
 		a.reducerFail(flavour, op, param, src, got, want)
 		return
@@ -281,6 +294,9 @@ func (a *acc) reduce(flavour, op, param string, src any, nontrivial bool, want a
 		a.dist = append(a.dist, op+"|"+param+"|"+fmt.Sprint(src))
 	}
 }
+
+// argModified is returned by a reducer call whose argument-integrity probe failed.
+type argModified string
 
 type oneRes struct {
 	x  int
@@ -343,7 +359,15 @@ func reducersOver(a *acc, d []int, lastKs []int) {
 		out, err := stream.Reduce[int, int](bg, newStreamProbe(a, "src", d), 7, func(acc, x int) (int, error) { return f(acc, x), nil })
 		return fmt.Sprint(out, " ", err)
 	})
-	a.reduce("xslices", "Reduce", "acc*31+x+1 from 7", d, n > 0, want, func() any { return xslices.Reduce(slices.Clone(d), 7, f) })
+	a.reduce("xslices", "Reduce", "acc*31+x+1 from 7", d, n > 0, want, func() any {
+		gd, chk, _ := guardInts(d)
+		out := xslices.Reduce(gd, 7, f)
+		a.integ++
+		if msg := chk(); msg != "" {
+			return argModified("argument modified: " + msg)
+		}
+		return out
+	})
 	a.count("totals", "flavour agreement checks", 2+2*len(lastKs))
 }
 
@@ -365,10 +389,25 @@ func equalOver(a *acc, seqs [][]int) {
 		for i, s := range seqs {
 			its[i] = newIterProbe(a, s)
 		}
-		return iterator.Equal(its...)
+		args, chk := guardRefs(its, iterSentinel) // the variadic list is a sub-slice with spare capacity
+		out := iterator.Equal(args...)
+		a.integ++
+		if msg := chk(); msg != "" {
+			return argModified("argument list modified: " + msg)
+		}
+		return out
 	})
 	if len(seqs) == 2 {
-		a.reduce("xslices", "Equal", param, seqs, false, want, func() any { return xslices.Equal(seqs[0], seqs[1]) })
+		a.reduce("xslices", "Equal", param, seqs, false, want, func() any {
+			g0, chk0, _ := guardInts(seqs[0])
+			g1, chk1, _ := guardInts(seqs[1])
+			out := xslices.Equal(g0, g1)
+			a.integ++
+			if msg := chk0() + chk1(); msg != "" {
+				return argModified("argument modified: " + msg)
+			}
+			return out
+		})
 		a.count("totals", "flavour agreement checks", 1)
 	}
 }
@@ -433,11 +472,18 @@ func forEachCut(d []int, k int, fn func(parts [][]int)) {
 	rec(1, 0)
 }
 
+// nestedJoinLen: nested-Join scenarios run for every cut of every sequence up to this length (Join
+// never looks at the items, so longer sequences add part-length patterns only).
+const nestedJoinLen = 4
+
 func smallCuts(a *acc, sp *seqSpace, idx int, maxParts int) {
 	d := sp.seqs[idx]
 	for k := 0; k <= maxParts; k++ {
 		forEachCut(d, k, func(parts [][]int) {
 			runMulti(a, parts, func(ps [][]int) []int { return xslices.Join(ps...) })
+			if len(d) <= nestedJoinLen {
+				runNestedJoins(a, parts)
+			}
 		})
 	}
 }
